@@ -115,8 +115,9 @@ func (a *strAn) caseNormalised(v ssa.Value, depth int) (bool, string) {
 	case *ssa.Slice:
 		return a.caseNormalised(x.X, depth+1)
 	case *ssa.Phi:
-		for _, e := range x.Edges {
-			if e == v {
+		dead := eng.PhiDeadEdges(x)
+		for i, e := range x.Edges {
+			if e == v || dead[i] {
 				continue
 			}
 			if ok, why := a.caseNormalised(e, depth+1); !ok {
@@ -213,8 +214,9 @@ func (a *strAn) nonEmpty(v ssa.Value, at *ssa.BasicBlock, depth int) bool {
 			}
 		}
 	case *ssa.Phi:
+		dead := eng.PhiDeadEdges(x)
 		for i, e := range x.Edges {
-			if e == v {
+			if e == v || dead[i] {
 				continue
 			}
 			if !a.nonEmpty(e, x.Block().Preds[i], depth+1) {
